@@ -8,9 +8,11 @@
                          run_program fuel p args <> OStuck, and a result has main's return type
 
    Side conditions (eval_ready, see TypeSafetyBase.v): (S1) no let/var initialiser is the literal
-   nil (or a block ending in it); (S2) no operand of == / != is the literal nil; (S3) no function
-   item directly follows another function item.  Each one excludes programs the model typechecker
-   accepts and the evaluator gets stuck on (Examples at the end of the file).  No axioms. *)
+   nil (or a block ending in it); (S2) no operand of == / != is the literal nil; (S3) in a run of
+   consecutive function items no function mentions a function that follows it in the run (the
+   typechecker declares the run together, the evaluator binds the names one by one).  Each one
+   excludes programs the model typechecker accepts and the evaluator gets stuck on (Examples at the
+   end of the file).  No axioms. *)
 From Coq Require Import ZArith NArith List Bool Lia Arith.
 From NV Require Import Src.Syntax Src.Eval Src.EvalLemmas Src.EvalProps Src.Types Src.Typecheck
   Src.TypecheckSpec Src.TypeSafetyBase.
@@ -20,6 +22,83 @@ Ltac split_and :=
   repeat match goal with
          | H : _ && _ = true |- _ => apply andb_true_iff in H; destruct H
          end.
+
+Fixpoint assoc (x : ident) (sigs : list (ident * cty)) : option cty :=
+  match sigs with
+  | [] => None
+  | (y, t) :: r => if N.eqb x y then Some t else assoc x r
+  end.
+
+Lemma declare_all_fresh : forall sigs s G0 G x b,
+  declare_all sigs (s :: G0) = Ok G -> lookup_scope x s = Some b -> assoc x sigs = None.
+Proof.
+  induction sigs as [|[y t] sigs IH]; intros s G0 G x b D L; simpl; auto.
+  simpl in D. destruct (lookup_scope y s) eqn:Ly; [discriminate|]. simpl in D.
+  destruct (N.eqb x y) eqn:E.
+  - apply N.eqb_eq in E. congruence.
+  - eapply IH; eauto. simpl. rewrite E. exact L.
+Qed.
+
+Lemma declare_all_lookup : forall sigs s G0 G, declare_all sigs (s :: G0) = Ok G ->
+  forall y, Types.lookup y G =
+            match assoc y sigs with Some t => Some (t, KTemp) | None => Types.lookup y (s :: G0) end.
+Proof.
+  induction sigs as [|[x t] sigs IH]; intros s G0 G D y; simpl in D.
+  - inversion D; subst. reflexivity.
+  - destruct (lookup_scope x s) eqn:Lx; [discriminate|]. simpl in D.
+    rewrite (IH _ _ _ D y). simpl. destruct (N.eqb y x) eqn:E.
+    + apply N.eqb_eq in E. subst y.
+      rewrite (declare_all_fresh _ _ _ _ x (t, KTemp) D); [reflexivity|].
+      simpl. rewrite N.eqb_refl. reflexivity.
+    + destruct (assoc y sigs); reflexivity.
+Qed.
+
+
+Lemma declare_all_lookup_gen : forall sigs G G1, declare_all sigs G = Ok G1 ->
+  forall y, Types.lookup y G1 =
+            match assoc y sigs with Some t => Some (t, KTemp) | None => Types.lookup y G end.
+Proof.
+  intros sigs [|s G0] G1 D y.
+  - destruct sigs as [|[x t] sigs].
+    + simpl in D. inversion D; subst. reflexivity.
+    + exact (declare_all_lookup ((x, t) :: sigs) [] [] G1 D y).
+  - exact (declare_all_lookup sigs s G0 G1 D y).
+Qed.
+
+Lemma assoc_in : forall sigs s G0 G x t, declare_all sigs (s :: G0) = Ok G ->
+  In (x, t) sigs -> assoc x sigs = Some t.
+Proof.
+  induction sigs as [|[y u] sigs IH]; intros s G0 G x t D HIn; [contradiction|].
+  simpl in D. destruct (lookup_scope y s) eqn:Ly; [discriminate|]. simpl in D.
+  simpl. destruct HIn as [E|HIn].
+  - inversion E; subst. rewrite N.eqb_refl. reflexivity.
+  - destruct (N.eqb x y) eqn:E.
+    + apply N.eqb_eq in E. subst y.
+      pose proof (declare_all_fresh _ _ _ _ x (u, KTemp) D) as Hf.
+      simpl in Hf. rewrite N.eqb_refl in Hf. specialize (Hf eq_refl).
+      rewrite (IH _ _ _ _ _ D HIn) in Hf. discriminate.
+    + eapply IH; eauto.
+Qed.
+
+Lemma declare_all_in : forall sigs G G1 x t, declare_all sigs G = Ok G1 ->
+  In (x, t) sigs -> Types.lookup x G1 = Some (t, KTemp).
+Proof.
+  intros sigs G G1 x t D HIn. rewrite (declare_all_lookup_gen _ _ _ D x).
+  destruct G as [|s G0].
+  - destruct sigs as [|[y u] sigs]; [contradiction|].
+    assert (D' : declare_all ((y, u) :: sigs) ([] :: []) = Ok G1) by exact D.
+    now rewrite (assoc_in _ _ _ _ _ _ D' HIn).
+  - now rewrite (assoc_in _ _ _ _ _ _ D HIn).
+Qed.
+
+Lemma assoc_none : forall y sigs, mem y (map fst sigs) = false -> assoc y sigs = None.
+Proof.
+  induction sigs as [|[x t] sigs IH]; simpl; intros H; auto.
+  apply orb_false_iff in H. destruct H as [H1 H2]. rewrite H1. auto.
+Qed.
+
+Lemma run_names_sigs : forall l, map fst (run_sigs l) = run_names l.
+Proof. induction l as [|[] l IH]; simpl; auto. now rewrite IH. Qed.
 
 Section Safety.
 Variable R : list recdecl.
@@ -115,27 +194,34 @@ Qed.
 (* ---- the three statements, by fuel ------------------------------------------------------------ *)
 
 Definition eval_safe (k : nat) : Prop :=
-  forall G e t kk t' env st S r st',
-    HasType R G e (t, kk) -> ready_expr e = true -> accepts t' t = true ->
-    env_ok S G env -> st_ok S st ->
+  forall G e t kk t' env st S P r st',
+    HasType R G e (t, kk) -> ready_expr P e = true -> accepts t' t = true ->
+    env_ok S G env P -> st_ok S st ->
     eval genv k env st e = (r, st') ->
     good S st t' (t = Types.CNil -> nilish e = true) r st'.
 
+(* names declared by the run of function items we are in, not yet bound *)
+Definition pend (inrun : bool) (items : list item) : list ident :=
+  if inrun then run_names items else [].
+
+Definition run_declared (G : Types.env) (inrun : bool) (items : list item) : Prop :=
+  inrun = true -> forall x ty, In (x, ty) (run_sigs items) -> Types.lookup x G = Some (ty, KTemp).
+
 Definition items_safe (k : nat) : Prop :=
-  forall G inrun lastb items t kk t' env st S lastc r st',
-    ItemsOk R G inrun lastb items (t, kk) -> ready_items items = true ->
-    (inrun = true -> head_func items = false) ->
-    accepts t' t = true -> env_ok S G env -> st_ok S st ->
+  forall G inrun lastb items t kk t' env st S P lastc r st',
+    ItemsOk R G inrun lastb items (t, kk) -> ready_items P items = true ->
+    run_declared G inrun items ->
+    accepts t' t = true -> env_ok S G env (pend inrun items ++ P) -> st_ok S st ->
     (items = [] -> exists c, lastc = Some c /\ nth_error S c = Some t') ->
     eval_items genv k env st items lastc = (r, st') ->
     good S st t' (t = Types.CNil -> items <> [] -> nilish_items items = true) r st'.
 
 Definition handlers_safe (k : nat) : Prop :=
-  forall G ret cs call env st S ex r st',
+  forall G ret cs call env st S P ex r st',
     CatchesOk R G ret cs -> CallOk R G ret call ->
-    forallb (fun c => ready_items (snd c)) cs = true ->
-    match call with None => true | Some b => ready_items b end = true ->
-    env_ok S G env -> st_ok S st ->
+    forallb (fun c => ready_items P (snd c)) cs = true ->
+    match call with None => true | Some b => ready_items P b end = true ->
+    env_ok S G env P -> st_ok S st ->
     handlers genv k env st ex cs call = (r, st') ->
     good S st (cty_of ret) True r st'.
 
@@ -143,10 +229,10 @@ Definition handlers_safe (k : nat) : Prop :=
 
 Lemma args_safe : forall k, eval_safe k ->
   forall G args targs, HasTypes R G args targs ->
-  forall tgts env st S ocs r st',
-    forallb ready_expr args = true ->
+  forall tgts env st S P ocs r st',
+    forallb (ready_expr P) args = true ->
     Forall2 (fun t' (b : binding) => accepts t' (fst b) = true) tgts targs ->
-    env_ok S G env -> st_ok S st ->
+    env_ok S G env P -> st_ok S st ->
     eval_args genv k env args st = ((ocs, r), st') ->
     exists S', ext S st S' st' /\ st_ok S' st' /\
       match ocs with
@@ -155,19 +241,19 @@ Lemma args_safe : forall k, eval_safe k ->
       end.
 Proof.
   intros k IHe G args targs HT. induction HT as [G|G a l b bs Ha Hl IH];
-    intros tgts env st S ocs r st' Hr Hacc Henv Hst Hev.
+    intros tgts env st S P ocs r st' Hr Hacc Henv Hst Hev.
   - unfold eval_args in Hev. rewrite eval_args_f_nil in Hev. inversion Hev; subst.
     exists S. split; [apply ext_refl|]. split; auto. inversion Hacc; subst. apply Forall2_nil.
   - unfold eval_args in Hev. rewrite eval_args_f_cons in Hev.
     fold (eval_args genv k env l st) in Hev.
     simpl in Hr. split_and. inversion Hacc as [|t1 b1 tgts' bs' Hacc1 Hacc2]; subst.
     destruct (eval_args genv k env l st) as [[ocs1 r1] st1] eqn:El.
-    destruct (IH _ _ _ _ _ _ _ H0 Hacc2 Henv Hst El) as [S1 [X1 [Hs1 Hc1]]].
+    destruct (IH _ _ _ _ _ _ _ _ H0 Hacc2 Henv Hst El) as [S1 [X1 [Hs1 Hc1]]].
     destruct ocs1 as [cs|].
     + destruct (eval genv k env st1 a) as [ra sa] eqn:Ea.
       destruct b as [tb kb]. simpl in Hacc1.
-      assert (Henv1 : env_ok S1 G env) by (eapply env_ok_ext; eauto).
-      destruct (IHe _ _ _ _ _ _ _ _ _ _ Ha H Hacc1 Henv1 Hs1 Ea) as [Ns [S2 [X2 [Hs2 Hc2]]]].
+      assert (Henv1 : env_ok S1 G env P) by (eapply env_ok_ext; eauto).
+      destruct (IHe _ _ _ _ _ _ _ _ _ _ _ Ha H Hacc1 Henv1 Hs1 Ea) as [Ns [S2 [X2 [Hs2 Hc2]]]].
       assert (X : ext S st S2 sa) by (eapply ext_trans; [exact X1|exact X2]).
       destruct ra; inversion Hev; subst; exists S2; (split; [exact X|]); (split; [exact Hs2|]).
       * pose proof (typed_cells_ext _ _ _ _ _ _ X2 Hc1) as Hc1'. unfold typed_cells in *.
@@ -181,23 +267,23 @@ Qed.
 (* ---- calls ------------------------------------------------------------------------------------ *)
 
 Lemma call_safe : forall k, items_safe k -> handlers_safe k ->
-  forall S st fd cenv Gf cs penv r st',
-  st_ok S st -> env_ok S Gf cenv -> FunOk' R Gf fd -> ready_fdef fd = true ->
+  forall S st fd cenv Gf P cs penv r st',
+  st_ok S st -> env_ok S Gf cenv P -> FunOk' R Gf fd -> ready_fdef P fd = true ->
   Forall2 (fun c p => nth_error S c = Some (cty_of (snd p))) cs (fd_params fd) ->
   bind_params (fd_params fd) cs = Some penv ->
   call_body genv k (penv ++ cenv) st fd = (r, st') ->
   good S st (cty_of (fd_ret fd)) True r st'.
 Proof.
-  intros k IHi IHh S st fd cenv Gf cs penv r st' Hst Henv
+  intros k IHi IHh S st fd cenv Gf P cs penv r st' Hst Henv
          [G' [tb [kb [D [HC [HA [HB Hacc]]]]]]] Hr T B Hev.
   rewrite ready_fdef_eq in Hr. split_and.
-  assert (He : env_ok S G' (penv ++ cenv)) by (eapply params_env_ok; eauto).
+  assert (He : env_ok S G' (penv ++ cenv) P) by (eapply params_env_ok; eauto).
   unfold call_body in Hev.
   destruct (eval_items genv k (penv ++ cenv) st (fd_body fd) None) as [rb sb] eqn:Eb.
   assert (Hne : fd_body fd = [] -> exists c, (None : option nat) = Some c /\ nth_error S c = Some (cty_of (fd_ret fd))).
   { intros E. rewrite E in HB. inversion HB. }
-  assert (Gb := IHi _ _ _ _ _ _ _ _ _ _ _ _ _ HB H (fun E => ltac:(discriminate E)) Hacc
-                    (env_ok_push _ _ _ _ He) Hst Hne Eb).
+  assert (Gb := IHi _ false _ _ _ _ _ _ _ _ P _ _ _ HB H (fun E => ltac:(discriminate E)) Hacc
+                    (env_ok_push _ _ _ _ _ He) Hst Hne Eb).
   destruct rb.
   - inversion Hev; subst. eapply good_weaken; eauto.
   - destruct Gb as [_ [S1 [X [Hs1 _]]]]. eapply good_trans; [exact X|].
@@ -214,7 +300,7 @@ Lemma apply_safe : forall k, items_safe k -> handlers_safe k ->
 Proof.
   intros k IHi IHh S st cf cs ps rt r st' Hst Hcf T Hev.
   destruct (cell_get _ _ _ _ _ _ Hst Hcf) as [v [Eg V]].
-  apply val_fun in V. destruct V as [fd [cenv [Gf [-> [Eps [Ert [He [HF Hr]]]]]]]].
+  apply val_fun in V. destruct V as [fd [cenv [Gf [P [-> [Eps [Ert [He [HF Hr]]]]]]]]].
   unfold apply_fun in Hev. rewrite Eg in Hev. subst ps rt.
   rewrite map_map in T. apply typed_cells_map in T. simpl in T.
   destruct (bind_params_some (fd_params fd) cs) as [penv B].
@@ -233,24 +319,24 @@ Definition ff (P : Prop) (E : false = true) : P := match Bool.diff_false_true E 
 
 (* a `{ ... }` body evaluated in the environment of the enclosing context *)
 Lemma items_block : forall k, items_safe k ->
-  forall G b th kh t' env st S r st',
-    ItemsOk R ([] :: G) false None b (th, kh) -> ready_items b = true ->
-    accepts t' th = true -> env_ok S G env -> st_ok S st ->
+  forall G b th kh t' env st S P r st',
+    ItemsOk R ([] :: G) false None b (th, kh) -> ready_items P b = true ->
+    accepts t' th = true -> env_ok S G env P -> st_ok S st ->
     eval_items genv k env st b None = (r, st') ->
     good S st t' (th = Types.CNil -> nilish_items b = true) r st'.
 Proof.
-  intros k IHi G b th kh t' env st S r st' HI Hr Hacc Henv Hst Hev.
+  intros k IHi G b th kh t' env st S P r st' HI Hr Hacc Henv Hst Hev.
   assert (Hx : b = [] -> exists c, (None : option nat) = Some c /\ nth_error S c = Some t')
     by (intros E; exfalso; eapply items_none_nonempty; eauto).
   eapply good_weaken;
-    [exact (IHi ([] :: G) false None b th kh t' env st S None r st'
-                HI Hr (ff _) Hacc (env_ok_push _ _ _ _ Henv) Hst Hx Hev)|].
+    [exact (IHi ([] :: G) false None b th kh t' env st S P None r st'
+                HI Hr (ff _) Hacc (env_ok_push _ _ _ _ _ Henv) Hst Hx Hev)|].
   intros Hn E. apply Hn; auto. intros E'. eapply items_none_nonempty; eauto.
 Qed.
 
 Lemma handlers_step : forall k, items_safe k -> handlers_safe k -> handlers_safe (S k).
 Proof.
-  intros k IHi IHh G ret cs call env st S ex r st' HC HA Hrc Hra Henv Hst Hev.
+  intros k IHi IHh G ret cs call env st S P ex r st' HC HA Hrc Hra Henv Hst Hev.
   destruct cs as [|[ex' body] t].
   - rewrite handlers_nil in Hev. destruct call as [b|].
     + inversion HA; subst.
@@ -278,26 +364,23 @@ Proof.
   intros. rewrite eval_items_IFunc. unfold alloc, set_cell. simpl. rewrite list_upd_snoc. reflexivity.
 Qed.
 
-Lemma run_sigs_nofunc : forall l, head_func l = false -> run_sigs l = [].
-Proof. intros [|[] l]; simpl; intros; auto; discriminate. Qed.
-
 Lemma nilish_items_tail : forall i rest, rest <> [] -> nilish_items (i :: rest) = nilish_items rest.
 Proof. intros i [|j rest] H; [congruence|]. apply nilish_items_cons. Qed.
 
 (* the items after a binding item *)
 Lemma items_rest : forall k, items_safe k ->
-  forall G inrun rest t kk t' env st S c r st' i,
-    ItemsOk R G inrun None rest (t, kk) -> ready_items rest = true ->
-    (inrun = true -> head_func rest = false) ->
-    accepts t' t = true -> env_ok S G env -> st_ok S st ->
+  forall G inrun rest t kk t' env st S P c r st' i,
+    ItemsOk R G inrun None rest (t, kk) -> ready_items P rest = true ->
+    run_declared G inrun rest ->
+    accepts t' t = true -> env_ok S G env (pend inrun rest ++ P) -> st_ok S st ->
     eval_items genv k env st rest (Some c) = (r, st') ->
     good S st t' (t = Types.CNil -> i :: rest <> [] -> nilish_items (i :: rest) = true) r st'.
 Proof.
-  intros k IHi G inrun rest t kk t' env st S c r st' i HI Hr Hrun Hacc Henv Hst Hev.
+  intros k IHi G inrun rest t kk t' env st S P c r st' i HI Hr Hrun Hacc Henv Hst Hev.
   assert (Hx : rest = [] -> exists c', Some c = Some c' /\ nth_error S c' = Some t')
     by (intros E; exfalso; eapply items_none_nonempty; eauto).
   eapply good_weaken;
-    [exact (IHi G inrun None rest t kk t' env st S (Some c) r st' HI Hr Hrun Hacc Henv Hst Hx Hev)|].
+    [exact (IHi G inrun None rest t kk t' env st S P (Some c) r st' HI Hr Hrun Hacc Henv Hst Hx Hev)|].
   intros Hn E _.
   assert (Hne : rest <> []) by (intros E'; eapply items_none_nonempty; eauto).
   rewrite nilish_items_tail by exact Hne. apply Hn; auto.
@@ -306,21 +389,25 @@ Qed.
 Ltac pass_nonok Hev Ga :=
   try (inversion Hev; subst; eapply good_pass; [exact Ga|intros; discriminate]).
 
+Lemma not_run : forall G items, run_declared G false items.
+Proof. intros G items E. discriminate. Qed.
+
 Lemma items_step : forall k, eval_safe k -> items_safe k -> items_safe (S k).
 Proof.
-  intros k IHe IHi G inrun lastb items t kk t' env st S lastc r st' HI Hr Hrun Hacc Henv Hst Hlast Hev.
+  intros k IHe IHi G inrun lastb items t kk t' env st S P lastc r st' HI Hr Hrun Hacc Henv Hst Hlast Hev.
   destruct items as [|i rest].
   - rewrite eval_items_nil in Hev. destruct (Hlast eq_refl) as [c [-> Hc]]. inversion Hev; subst.
     apply good_here; [exact Hst|discriminate|]. intros c' E. inversion E; subst. split; [exact Hc|].
     intros _ N. congruence.
-  - destruct (ready_items_cons _ _ Hr) as [Hri [Hrr Hadj]].
+  - rewrite ready_items_cons in Hr. apply andb_true_iff in Hr. destruct Hr as [Hri Hrr].
     inversion HI; subst.
     + (* let *)
-      rewrite eval_items_ILet in Hev. simpl in Hri.
+      assert (Henv0 : env_ok S G env P) by (destruct inrun; exact Henv).
+      rewrite eval_items_ILet in Hev.
       apply andb_true_iff in Hri. destruct Hri as [Hre Hnn].
       destruct (eval genv k env st e) as [ra sa] eqn:Ea.
       match goal with HT : HasType _ _ e (?t0, _) |- _ =>
-        assert (Ga := IHe _ _ _ _ (dflt t0) _ _ _ _ _ HT Hre (accepts_dflt _) Henv Hst Ea);
+        assert (Ga := IHe _ _ _ _ (dflt t0) _ _ _ _ _ _ HT Hre (accepts_dflt _) Henv0 Hst Ea);
         assert (Nn : good S st (dflt t0) (t0 <> Types.CNil) ra sa)
       end.
       { eapply good_weaken; [exact Ga|]. intros Hn E. apply Hn in E. rewrite E in Hnn. discriminate. }
@@ -328,15 +415,16 @@ Proof.
       destruct Nn as [_ [S1 [X [Hs1 Hc]]]]. destruct (Hc c eq_refl) as [Hc1 Hn].
       rewrite dflt_nonnil in Hc1 by auto.
       eapply good_trans; [exact X|].
-      assert (He1 : env_ok S1 G' ((x, c) :: env)).
-      { eapply env_ok_declare; eauto. eapply env_ok_ext; eauto. }
-      eapply items_rest; eauto.
+      assert (He1 : env_ok S1 G' ((x, c) :: env) (pend false rest ++ P)).
+      { simpl. eapply env_ok_declare; eauto. eapply env_ok_ext; eauto. }
+      eapply items_rest; eauto using not_run.
     + (* var *)
-      rewrite eval_items_IVar in Hev. simpl in Hri.
+      assert (Henv0 : env_ok S G env P) by (destruct inrun; exact Henv).
+      rewrite eval_items_IVar in Hev.
       apply andb_true_iff in Hri. destruct Hri as [Hre Hnn].
       destruct (eval genv k env st e) as [ra sa] eqn:Ea.
       match goal with HT : HasType _ _ e (?t0, _) |- _ =>
-        assert (Ga := IHe _ _ _ _ (dflt t0) _ _ _ _ _ HT Hre (accepts_dflt _) Henv Hst Ea);
+        assert (Ga := IHe _ _ _ _ (dflt t0) _ _ _ _ _ _ HT Hre (accepts_dflt _) Henv0 Hst Ea);
         assert (Nn : good S st (dflt t0) (t0 <> Types.CNil) ra sa)
       end.
       { eapply good_weaken; [exact Ga|]. intros Hn E. apply Hn in E. rewrite E in Hnn. discriminate. }
@@ -344,52 +432,69 @@ Proof.
       destruct Nn as [_ [S1 [X [Hs1 Hc]]]]. destruct (Hc c eq_refl) as [Hc1 Hn].
       rewrite dflt_nonnil in Hc1 by auto.
       eapply good_trans; [exact X|].
-      assert (He1 : env_ok S1 G' ((x, c) :: env)).
-      { eapply env_ok_declare; eauto. eapply env_ok_ext; eauto. }
-      eapply items_rest; eauto.
-    + (* func *)
-      destruct inrun. { specialize (Hrun eq_refl). simpl in Hrun. discriminate. }
-      rewrite eval_items_IFunc' in Hev. simpl in Hri.
-      assert (Hrs : run_sigs rest = []) by (apply run_sigs_nofunc; apply Hadj; reflexivity).
-      match goal with HD : declare_all _ G = Ok G1 |- _ =>
-        simpl in HD; rewrite Hrs in HD; simpl in HD;
-        destruct (declare (fd_name fd) (fd_cty fd, KTemp) G) as [G1'|] eqn:D; simpl in HD;
-        inversion HD; subst G1' end.
+      assert (He1 : env_ok S1 G' ((x, c) :: env) (pend false rest ++ P)).
+      { simpl. eapply env_ok_declare; eauto. eapply env_ok_ext; eauto. }
+      eapply items_rest; eauto using not_run.
+    + (* func: the run is declared in G1; env binds everything but the run's names *)
+      rewrite eval_items_IFunc' in Hev.
+      assert (HH : (forall x ty, In (x, ty) (run_sigs (IFunc fd :: rest)) ->
+                                 Types.lookup x G1 = Some (ty, KTemp)) /\
+                   env_ok S G1 env (run_names (IFunc fd :: rest) ++ P)).
+      { match goal with HD : _ = Ok G1 |- _ => destruct inrun; [inversion HD; subst G1|] end.
+        - split; [exact (Hrun eq_refl)|exact Henv].
+        - match goal with HD : declare_all _ G = Ok G1 |- _ => rename HD into HD' end.
+          split; [intros x ty HIn; eapply declare_all_in; eauto|].
+          intros y ty ky L M. rewrite (declare_all_lookup_gen _ _ _ HD' y) in L.
+          rewrite mem_app in M. apply orb_false_iff in M. destruct M as [M1 M2].
+          rewrite assoc_none in L by (rewrite run_names_sigs; exact M1).
+          exact (Henv y ty ky L M2). }
+      destruct HH as [HG1 Henv1].
+      assert (Hname : Types.lookup (fd_name fd) G1 = Some (fd_cty fd, KTemp)).
+      { apply HG1. simpl. left. reflexivity. }
       set (c := length (cells st)) in *. set (e' := (fd_name fd, c) :: env) in *.
       set (S' := S ++ [fd_cty fd]).
       assert (X : ext S st S' st) by (apply ext_snoc; reflexivity).
       assert (Hc : nth_error S' c = Some (fd_cty fd)).
       { unfold c, S'. rewrite <- (proj1 Hst). apply nth_error_snoc_new. }
-      assert (He1 : env_ok S' G1 e').
-      { eapply env_ok_declare; eauto. eapply env_ok_ext; eauto. }
-      assert (He2 : env_ok S' ([(fd_name fd, (fd_cty fd, KTemp))] :: G1) e').
-      { intros y ty ky L. simpl in L. destruct (N.eqb y (fd_name fd)) eqn:E.
+      assert (He1 : env_ok S' G1 e' (run_names rest ++ P)).
+      { intros y ty ky L M. unfold e'. rewrite lookup_var_cons.
+        destruct (N.eqb y (fd_name fd)) eqn:E.
+        - apply N.eqb_eq in E. subst y. rewrite Hname in L. inversion L; subst.
+          exists c. split; [reflexivity|exact Hc].
+        - destruct (Henv1 y ty ky L) as [c' [L1 L2]].
+          { simpl. rewrite E. exact M. }
+          exists c'. split; [exact L1|apply (proj1 X); exact L2]. }
+      assert (He2 : env_ok S' ([(fd_name fd, (fd_cty fd, KTemp))] :: G1) e' (run_names rest ++ P)).
+      { intros y ty ky L M. simpl in L. destruct (N.eqb y (fd_name fd)) eqn:E.
         - inversion L; subst. exists c. split; [unfold e'; rewrite lookup_var_cons, E; reflexivity|exact Hc].
-        - apply (He1 y ty ky). exact L. }
+        - apply (He1 y ty ky L M). }
       assert (V : val_ok S' st (Eval.CFun fd e') (fd_cty fd)).
-      { apply V_fun with (Gf := [(fd_name fd, (fd_cty fd, KTemp))] :: G1); auto.
-        apply (FunOk_FunOk' R G1 false fd). assumption. }
+      { apply V_fun with (Gf := [(fd_name fd, (fd_cty fd, KTemp))] :: G1) (P := run_names rest ++ P);
+          [exact He2|apply (FunOk_FunOk' R G1 false fd); assumption|exact Hri]. }
       destruct (alloc_ok R genv S st (Eval.CFun fd e') (fd_cty fd) Hst V) as [Hs' [X' Hc']].
       eapply good_trans; [exact X'|].
+      assert (Hrun' : run_declared G1 true rest).
+      { intros _ x ty HIn. apply HG1. simpl. right. exact HIn. }
       eapply items_rest; eauto.
     + (* expr *)
-      rewrite eval_items_IExpr in Hev. simpl in Hri. destruct b' as [tb' kb'].
+      assert (Henv0 : env_ok S G env P) by (destruct inrun; exact Henv).
+      rewrite eval_items_IExpr in Hev. destruct b' as [tb' kb'].
       destruct (eval genv k env st e) as [ra sa] eqn:Ea.
       destruct rest as [|j rest'].
       * match goal with HL : ItemsOk _ _ _ _ [] _ |- _ => inversion HL; subst end.
         match goal with HT : HasType _ _ e _ |- _ =>
-          assert (Ga := IHe _ _ _ _ t' _ _ _ _ _ HT Hri Hacc Henv Hst Ea) end.
+          assert (Ga := IHe _ _ _ _ t' _ _ _ _ _ _ HT Hri Hacc Henv0 Hst Ea) end.
         destruct ra; pass_nonok Hev Ga.
         destruct Ga as [_ [S1 [X [Hs1 Hc]]]]. destruct (Hc c eq_refl) as [Hc1 Hn].
         eapply good_trans; [exact X|].
         assert (Hx : @nil item = [] -> exists c', Some c = Some c' /\ nth_error S1 c' = Some t') by eauto.
         eapply good_weaken;
-          [exact (IHi G false (Some (t, kk)) [] t kk t' env sa S1 (Some c) r st'
-                      (I_end R G false (t, kk)) eq_refl (ff _) Hacc
-                      (env_ok_ext _ _ _ _ _ _ _ X Henv) Hs1 Hx Hev)|].
+          [exact (IHi G false (Some (t, kk)) [] t kk t' env sa S1 P (Some c) r st'
+                      (I_end R G false (t, kk)) eq_refl (not_run _ _) Hacc
+                      (env_ok_ext _ _ _ _ _ _ _ _ X Henv0) Hs1 Hx Hev)|].
         intros _ E _. rewrite nilish_items_one. auto.
       * match goal with HT : HasType _ _ e _ |- _ =>
-          assert (Ga := IHe _ _ _ _ (dflt tb') _ _ _ _ _ HT Hri (accepts_dflt _) Henv Hst Ea) end.
+          assert (Ga := IHe _ _ _ _ (dflt tb') _ _ _ _ _ _ HT Hri (accepts_dflt _) Henv0 Hst Ea) end.
         destruct ra; pass_nonok Hev Ga.
         destruct Ga as [_ [S1 [X [Hs1 Hc]]]].
         eapply good_trans; [exact X|].
@@ -397,8 +502,8 @@ Proof.
           by discriminate.
         match goal with HL : ItemsOk _ _ _ _ (j :: rest') _ |- _ =>
         eapply good_weaken;
-          [exact (IHi G false (Some (tb', kb')) (j :: rest') t kk t' env sa S1 (Some c) r st'
-                      HL Hrr (ff _) Hacc (env_ok_ext _ _ _ _ _ _ _ X Henv) Hs1 Hx Hev)|] end.
+          [exact (IHi G false (Some (tb', kb')) (j :: rest') t kk t' env sa S1 P (Some c) r st'
+                      HL Hrr (not_run _ _) Hacc (env_ok_ext _ _ _ _ _ _ _ _ X Henv0) Hs1 Hx Hev)|] end.
         intros Hn' E _. rewrite nilish_items_cons. apply Hn'; auto. discriminate.
 Qed.
 
@@ -430,21 +535,21 @@ Ltac sub IHe a tgt Hacc' c S1 X Hs1 Hc1 Hn1 :=
   let ra := fresh "ra" in let sa := fresh "sa" in let Ea := fresh "Ea" in
   let Ga := fresh "Ga" in let Hc := fresh "Hc" in
   match goal with
-  | Hev : context [eval ?genv ?k ?env ?st a], HT : HasType _ _ a _,
-    Henv : TypeSafetyBase.env_ok _ ?S _ ?env, Hst : TypeSafetyBase.st_ok _ _ ?S ?st |- _ =>
+  | Hev : context [eval ?genv ?k ?env ?st a], HT : HasType _ _ a _, Hra : ready_expr _ a = true,
+    Henv : TypeSafetyBase.env_ok _ ?S _ ?env _, Hst : TypeSafetyBase.st_ok _ _ ?S ?st |- _ =>
     destruct (eval genv k env st a) as [ra sa] eqn:Ea;
-    assert (Ga := IHe _ _ _ _ tgt _ _ _ _ _ HT ltac:(assumption) Hacc' Henv Hst Ea);
+    assert (Ga := IHe _ _ _ _ tgt _ _ _ _ _ _ HT Hra Hacc' Henv Hst Ea);
     destruct ra as [c| | |]; pass_nonok Hev Ga;
     destruct Ga as [_ [S1 [X [Hs1 Hc]]]]; destruct (Hc c eq_refl) as [Hc1 Hn1]; clear Hc;
     (eapply good_trans; [exact X|]);
-    pose proof (env_ok_ext _ _ _ _ _ _ _ X Henv)
+    pose proof (env_ok_ext _ _ _ _ _ _ _ _ X Henv)
   end.
 
 Ltac tgt_is Hacc t' := apply accepts_nonnil in Hacc; [subst t'|try discriminate].
 
 Lemma eval_step : forall k, eval_safe k -> items_safe k -> handlers_safe k -> eval_safe (S k).
 Proof.
-  intros k IHe IHi IHh G e t kk t' env st S r st' HT Hr Hacc Henv Hst Hev.
+  intros k IHe IHi IHh G e t kk t' env st S P r st' HT Hr Hacc Henv Hst Hev.
   pose proof Hr as Hr0.
   destruct e as [z|b|x|a|a|a|op a b|c a b|c a|lhs rhs|f args|items|c body|body c
                  |init cond incr body|fd|es ety|a i|rn args|rn|a rn fld|a];
@@ -454,7 +559,8 @@ Proof.
   - (* bool *) rewrite eval_EBool in Hev. tgt_is Hacc t'.
     refine (good_fresh _ _ _ _ _ _ _ Hst _ _ Hev); [constructor|intros; discriminate].
   - (* var *) rewrite eval_EVar in Hev.
-    match goal with L : Types.lookup x G = Some _ |- _ => destruct (Henv _ _ _ L) as [c [Lc Hc]] end.
+    simpl in Hr. apply negb_true_iff in Hr.
+    match goal with L : Types.lookup x G = Some _ |- _ => destruct (Henv _ _ _ L Hr) as [c [Lc Hc]] end.
     rewrite Lc in Hev. inversion Hev; subst.
     assert (Nn : t <> Types.CNil) by (eapply cell_nonnil; eauto).
     apply accepts_nonnil in Hacc; auto; subst t'.
@@ -536,13 +642,14 @@ Proof.
   - (* call *)
     simpl in Hr. split_and. rewrite eval_ECall in Hev.
     destruct (eval_args genv k env args st) as [[ocs r1] s1] eqn:Eargs.
-    match goal with HTs : HasTypes _ _ args ?targs, Ha : args_ok true ?ps ?targs = true |- _ =>
-      destruct (args_safe k IHe _ _ _ HTs (map snd ps) _ _ _ _ _ _ ltac:(assumption)
+    match goal with HTs : HasTypes _ _ args ?targs, Ha : args_ok true ?ps ?targs = true,
+                    Hra : forallb (ready_expr _) args = true |- _ =>
+      destruct (args_safe k IHe _ _ _ HTs (map snd ps) _ _ _ _ _ _ _ Hra
                           (args_ok_accepts _ _ _ Ha) Henv Hst Eargs) as [S1 [X1 [Hs1 Hcs]]] end.
     destruct ocs as [cs|].
     2:{ inversion Hev; subst. destruct Hcs as [N1 N2]. eapply good_step; eauto.
         intros c E. exfalso. eapply N2; eauto. }
-    eapply good_trans; [exact X1|]. pose proof (env_ok_ext _ _ _ _ _ _ _ X1 Henv) as Henv1.
+    eapply good_trans; [exact X1|]. pose proof (env_ok_ext _ _ _ _ _ _ _ _ X1 Henv) as Henv1.
     match goal with HF : HasType _ _ f (Types.CFun ?ps ?rt, _) |- _ =>
       sub IHe f (Types.CFun ps rt) (accepts_refl (Types.CFun ps rt) ltac:(discriminate)) cf S2 X2 Hs2 Hc2 Hn2 end.
     pose proof (typed_cells_ext _ _ _ _ _ _ X2 Hcs) as Hcs2.
@@ -576,21 +683,21 @@ Proof.
     { eapply T_While; [eassumption|]. apply T_Block.
       eapply I_expr; [apply HasType_push; eassumption|].
       eapply I_expr; [apply HasType_push; eassumption|]. apply I_end. }
-    assert (HRW : ready_expr (EWhile cond (EBlock [IExpr body; IExpr incr])) = true).
-    { simpl. repeat match goal with Hq : ready_expr _ = true |- _ => rewrite Hq; clear Hq end. reflexivity. }
-    eapply good_weaken; [eapply (IHe _ _ _ _ Types.CInt _ _ _ _ _ HW HRW); eauto|]. intros; discriminate.
+    assert (HRW : ready_expr P (EWhile cond (EBlock [IExpr body; IExpr incr])) = true).
+    { simpl. repeat match goal with Hq : ready_expr _ _ = true |- _ => rewrite Hq; clear Hq end. reflexivity. }
+    eapply good_weaken; [eapply (IHe _ _ _ _ Types.CInt _ _ _ _ _ _ HW HRW); eauto|]. intros; discriminate.
   - (* lambda *)
     simpl in Hr. rewrite eval_ELambda in Hev.
     apply accepts_nonnil in Hacc; [subst t'|unfold fd_cty, sig_cty; discriminate].
     refine (good_fresh _ _ _ _ _ _ _ Hst _ _ Hev).
-    + apply V_fun with (Gf := [] :: G);
+    + apply V_fun with (Gf := [] :: G) (P := P);
         [apply env_ok_push; exact Henv|apply (FunOk_FunOk' R G true fd); assumption|exact Hr].
     + unfold fd_cty, sig_cty; intros; discriminate.
   - (* array literal *)
     simpl in Hr. rewrite eval_EArrLit in Hev. tgt_is Hacc t'.
     destruct (eval_args genv k env es st) as [[ocs r1] s1] eqn:Eargs.
     match goal with HTs : HasTypes _ _ es ?tes, Ha : check_elems ety ?tes = true |- _ =>
-      destruct (args_safe k IHe _ _ _ HTs (map (fun _ => cty_of ety) tes) _ _ _ _ _ _ Hr
+      destruct (args_safe k IHe _ _ _ HTs (map (fun _ => cty_of ety) tes) _ _ _ _ _ _ _ Hr
                           (check_elems_accepts _ _ Ha) Henv Hst Eargs) as [S1 [X1 [Hs1 Hcs]]] end.
     destruct ocs as [cs|].
     2:{ inversion Hev; subst. destruct Hcs as [N1 N2]. eapply good_step; eauto.
@@ -630,7 +737,7 @@ Proof.
     destruct (eval_args genv k env args st) as [[ocs r1] s1] eqn:Eargs.
     match goal with HTs : HasTypes _ _ args ?targs, Ha : args_ok false _ ?targs = true |- _ =>
       pose proof (args_ok_accepts _ _ _ Ha) as Hacs; rewrite map_map in Hacs; simpl in Hacs;
-      destruct (args_safe k IHe _ _ _ HTs _ _ _ _ _ _ _ Hr Hacs Henv Hst Eargs) as [S1 [X1 [Hs1 Hcs]]] end.
+      destruct (args_safe k IHe _ _ _ HTs _ _ _ _ _ _ _ _ Hr Hacs Henv Hst Eargs) as [S1 [X1 [Hs1 Hcs]]] end.
     destruct ocs as [cs|].
     2:{ inversion Hev; subst. destruct Hcs as [N1 N2]. eapply good_step; eauto.
         intros c E. exfalso. eapply N2; eauto. }
@@ -671,12 +778,12 @@ Theorem safe_all : forall k, eval_safe k /\ items_safe k /\ handlers_safe k.
 Proof.
   induction k as [|k [IHe [IHi IHh]]].
   - split; [|split].
-    + intros G e t kk t' env st S r st' HT Hr Hacc Henv Hst Hev. rewrite eval_O in Hev.
+    + intros G e t kk t' env st S P r st' HT Hr Hacc Henv Hst Hev. rewrite eval_O in Hev.
       inversion Hev; subst. apply good_here; [exact Hst|discriminate|intros; discriminate].
-    + intros G inrun lastb items t kk t' env st S lastc r st' HI Hr Hrun Hacc Henv Hst Hlast Hev.
+    + intros G inrun lastb items t kk t' env st S P lastc r st' HI Hr Hrun Hacc Henv Hst Hlast Hev.
       rewrite eval_items_O in Hev.
       inversion Hev; subst. apply good_here; [exact Hst|discriminate|intros; discriminate].
-    + intros G ret cs call env st S ex r st' HC HA Hrc Hra Henv Hst Hev. rewrite handlers_O in Hev.
+    + intros G ret cs call env st S P ex r st' HC HA Hrc Hra Henv Hst Hev. rewrite handlers_O in Hev.
       inversion Hev; subst. apply good_here; [exact Hst|discriminate|intros; discriminate].
   - split; [|split]; [apply eval_step|apply items_step|apply handlers_step]; auto.
 Qed.
@@ -687,24 +794,25 @@ End Safety.
 
    S is the store typing (cell index -> type).  `accepts t' t` lets the consumer of a nil literal
    choose the record type the fresh nil cell is typed at (t' = t for every other expression,
-   see eval_type_safe_nonnil). *)
-Theorem eval_type_safe : forall R genv fuel G e t k t' env st S r st',
-  HasType R G e (t, k) -> ready_expr e = true -> accepts t' t = true ->
-  env_ok genv S G env -> st_ok R genv S st ->
+   see eval_type_safe_nonnil).  P = names the context declares but the environment does not bind
+   yet (later functions of a run of function items); the expression must not mention them. *)
+Theorem eval_type_safe : forall R genv fuel G e t k t' env st S P r st',
+  HasType R G e (t, k) -> ready_expr P e = true -> accepts t' t = true ->
+  env_ok genv S G env P -> st_ok R genv S st ->
   eval genv fuel env st e = (r, st') ->
   r <> RStuck /\
   exists S', ext S st S' st' /\ st_ok R genv S' st' /\
              forall c, r = ROk c -> nth_error S' c = Some t'.
 Proof.
-  intros R genv fuel G e t k t' env st S r st' HT Hr Hacc Henv Hst Hev.
-  destruct (proj1 (safe_all R genv fuel) _ _ _ _ _ _ _ _ _ _ HT Hr Hacc Henv Hst Hev)
+  intros R genv fuel G e t k t' env st S P r st' HT Hr Hacc Henv Hst Hev.
+  destruct (proj1 (safe_all R genv fuel) _ _ _ _ _ _ _ _ _ _ _ HT Hr Hacc Henv Hst Hev)
     as [N [S' [X [Hs Hc]]]].
   split; auto. exists S'. split; [|split]; auto. intros c E. apply (Hc c E).
 Qed.
 
-Theorem eval_type_safe_nonnil : forall R genv fuel G e t k env st S r st',
-  HasType R G e (t, k) -> ready_expr e = true -> t <> Types.CNil ->
-  env_ok genv S G env -> st_ok R genv S st ->
+Theorem eval_type_safe_nonnil : forall R genv fuel G e t k env st S P r st',
+  HasType R G e (t, k) -> ready_expr P e = true -> t <> Types.CNil ->
+  env_ok genv S G env P -> st_ok R genv S st ->
   eval genv fuel env st e = (r, st') ->
   r <> RStuck /\
   exists S', ext S st S' st' /\ st_ok R genv S' st' /\
@@ -713,32 +821,32 @@ Proof.
   intros. eapply eval_type_safe; eauto. apply accepts_refl; auto.
 Qed.
 
-Theorem eval_items_type_safe : forall R genv fuel G items t k t' env st S r st',
-  ItemsOk R ([] :: G) false None items (t, k) -> ready_items items = true -> accepts t' t = true ->
-  env_ok genv S G env -> st_ok R genv S st ->
+Theorem eval_items_type_safe : forall R genv fuel G items t k t' env st S P r st',
+  ItemsOk R ([] :: G) false None items (t, k) -> ready_items P items = true -> accepts t' t = true ->
+  env_ok genv S G env P -> st_ok R genv S st ->
   eval_items genv fuel env st items None = (r, st') ->
   r <> RStuck /\
   exists S', ext S st S' st' /\ st_ok R genv S' st' /\
              forall c, r = ROk c -> nth_error S' c = Some t'.
 Proof.
-  intros R genv fuel G items t k t' env st S r st' HI Hr Hacc Henv Hst Hev.
+  intros R genv fuel G items t k t' env st S P r st' HI Hr Hacc Henv Hst Hev.
   destruct (items_block R genv fuel (proj1 (proj2 (safe_all R genv fuel)))
-              _ _ _ _ _ _ _ _ _ _ HI Hr Hacc Henv Hst Hev) as [N [S' [X [Hs Hc]]]].
+              _ _ _ _ _ _ _ _ _ _ _ HI Hr Hacc Henv Hst Hev) as [N [S' [X [Hs Hc]]]].
   split; auto. exists S'. split; [|split]; auto. intros c E. apply (Hc c E).
 Qed.
 
-Theorem handlers_type_safe : forall R genv fuel G ret cs call env st S ex r st',
+Theorem handlers_type_safe : forall R genv fuel G ret cs call env st S P ex r st',
   CatchesOk R G ret cs -> CallOk R G ret call ->
-  forallb (fun c => ready_items (snd c)) cs = true ->
-  match call with None => true | Some b => ready_items b end = true ->
-  env_ok genv S G env -> st_ok R genv S st ->
+  forallb (fun c => ready_items P (snd c)) cs = true ->
+  match call with None => true | Some b => ready_items P b end = true ->
+  env_ok genv S G env P -> st_ok R genv S st ->
   handlers genv fuel env st ex cs call = (r, st') ->
   r <> RStuck /\
   exists S', ext S st S' st' /\ st_ok R genv S' st' /\
              forall c, r = ROk c -> nth_error S' c = Some (cty_of ret).
 Proof.
-  intros R genv fuel G ret cs call env st S ex r st' HC HA H1 H2 Henv Hst Hev.
-  destruct (proj2 (proj2 (safe_all R genv fuel)) _ _ _ _ _ _ _ _ _ _ HC HA H1 H2 Henv Hst Hev)
+  intros R genv fuel G ret cs call env st S P ex r st' HC HA H1 H2 Henv Hst Hev.
+  destruct (proj2 (proj2 (safe_all R genv fuel)) _ _ _ _ _ _ _ _ _ _ _ HC HA H1 H2 Henv Hst Hev)
     as [N [S' [X [Hs Hc]]]].
   split; auto. exists S'. split; [|split]; auto. intros c E. apply (Hc c E).
 Qed.
@@ -767,36 +875,6 @@ Definition val_shape (v : cellval) (t : ty) : Prop :=
   | TArr _, Eval.CArr _ | TRec _, Eval.CRec _ => True
   | _, _ => False
   end.
-
-Fixpoint assoc (x : ident) (sigs : list (ident * cty)) : option cty :=
-  match sigs with
-  | [] => None
-  | (y, t) :: r => if N.eqb x y then Some t else assoc x r
-  end.
-
-Lemma declare_all_fresh : forall sigs s G0 G x b,
-  declare_all sigs (s :: G0) = Ok G -> lookup_scope x s = Some b -> assoc x sigs = None.
-Proof.
-  induction sigs as [|[y t] sigs IH]; intros s G0 G x b D L; simpl; auto.
-  simpl in D. destruct (lookup_scope y s) eqn:Ly; [discriminate|]. simpl in D.
-  destruct (N.eqb x y) eqn:E.
-  - apply N.eqb_eq in E. congruence.
-  - eapply IH; eauto. simpl. rewrite E. exact L.
-Qed.
-
-Lemma declare_all_lookup : forall sigs s G0 G, declare_all sigs (s :: G0) = Ok G ->
-  forall y, Types.lookup y G =
-            match assoc y sigs with Some t => Some (t, KTemp) | None => Types.lookup y (s :: G0) end.
-Proof.
-  induction sigs as [|[x t] sigs IH]; intros s G0 G D y; simpl in D.
-  - inversion D; subst. reflexivity.
-  - destruct (lookup_scope x s) eqn:Lx; [discriminate|]. simpl in D.
-    rewrite (IH _ _ _ D y). simpl. destruct (N.eqb y x) eqn:E.
-    + apply N.eqb_eq in E. subst y.
-      rewrite (declare_all_fresh _ _ _ _ x (t, KTemp) D); [reflexivity|].
-      simpl. rewrite N.eqb_refl. reflexivity.
-    + destruct (assoc y sigs); reflexivity.
-Qed.
 
 Lemma assoc_top_sigs : forall fs s G0 G fd, declare_all (top_sigs fs) (s :: G0) = Ok G ->
   In fd fs -> assoc (fd_name fd) (top_sigs fs) = Some (fd_cty fd).
@@ -846,10 +924,10 @@ Let genv := global_env (p_funcs p) 0.
 Let S0 : styping := map fd_cty (p_funcs p).
 
 Lemma global_ctx : exists G, declare_all (top_sigs (p_funcs p)) [[]] = Ok G /\ FunsOk R G (p_funcs p) /\
-  env_ok genv S0 G [].
+  env_ok genv S0 G [] [].
 Proof.
   destruct HWT as [_ [G [D HF]]]. exists G. split; auto. split; auto.
-  intros x t k L. rewrite (declare_all_lookup _ _ _ _ D x) in L.
+  intros x t k L _. rewrite (declare_all_lookup _ _ _ _ D x) in L.
   destruct (assoc x (top_sigs (p_funcs p))) as [t0|] eqn:Ea; [|simpl in L; discriminate].
   inversion L; subst. destruct (global_env_assoc _ 0 _ _ Ea) as [c [Lc [_ Hn]]].
   rewrite Nat.sub_0_r in Hn. exists c. split; auto.
@@ -867,12 +945,12 @@ Proof.
     rewrite nth_error_map in Hc, Ht.
     destruct (nth_error (p_funcs p) c) as [fd|] eqn:En; simpl in Hc, Ht; [|discriminate].
     inversion Hc; inversion Ht; subst. apply nth_error_In in En.
-    apply V_fun with (Gf := [(fd_name fd, (fd_cty fd, KTemp))] :: G).
-    + intros x t k L. simpl in L. destruct (N.eqb x (fd_name fd)) eqn:E.
+    apply V_fun with (Gf := [(fd_name fd, (fd_cty fd, KTemp))] :: G) (P := []).
+    + intros x t k L M. simpl in L. destruct (N.eqb x (fd_name fd)) eqn:E.
       * inversion L; subst. apply N.eqb_eq in E. subst x.
         destruct (global_env_assoc _ 0 _ _ (assoc_top_sigs _ _ _ _ _ D En)) as [c' [Lc [_ Hn]]].
         rewrite Nat.sub_0_r in Hn. exists c'. split; auto.
-      * apply (He x t k L).
+      * apply (He x t k L M).
     + apply (FunOk_FunOk' R G false fd). eapply FunsOk_In; eauto.
     + unfold eval_ready in HR. rewrite forallb_forall in HR. auto.
 Qed.
@@ -931,7 +1009,7 @@ Proof.
   { apply (proj1 X1). unfold S0. rewrite nth_error_map, Hn. reflexivity. }
   destruct Hs1 as [HL1 HV1]. pose proof (HV1 _ _ _ Hcm Hcm1) as V.
   assert (Hs1 : st_ok R genv S1 st1) by (split; auto).
-  apply val_fun in V. destruct V as [fd' [cenv [Gf [Efd [_ [_ [He [HF Hrf]]]]]]]].
+  apply val_fun in V. destruct V as [fd' [cenv [Gf [P [Efd [_ [_ [He [HF Hrf]]]]]]]]].
   inversion Efd; subst fd' cenv.
   assert (T : Forall2 (fun c q => nth_error S1 c = Some (cty_of (snd q))) argcells (fd_params fd)).
   { clear - T1 Hints Hlen. revert argcells T1 Hlen Hints.
@@ -944,7 +1022,7 @@ Proof.
   { eapply Forall2_length'; eauto. }
   rewrite B.
   pose proof (safe_all R genv fuel) as [_ [IHi IHh]].
-  pose proof (fun r st' => call_safe R genv fuel IHi IHh S1 st1 fd [] Gf argcells penv r st'
+  pose proof (fun r st' => call_safe R genv fuel IHi IHh S1 st1 fd [] Gf P argcells penv r st'
                                       Hs1 He HF Hrf T B) as Hcall.
   rewrite app_nil_r in Hcall. unfold call_body in Hcall.
   destruct (match eval_items genv fuel penv st1 (fd_body fd) None with
@@ -1027,6 +1105,24 @@ Proof. vm_compute. auto. Qed.
 Example ex_prog_runs : run_program 50 ex_prog [5%Z] = OResult (Eval.CInt 0) [1%Z].
 Proof. vm_compute. reflexivity. Qed.
 
+(* a run of two function items, the second uses the first:
+     func main() -> int {
+       func inc(x : int) -> int { x + 1 }
+       func twice(x : int) -> int { inc(inc(x)) }
+       twice(3) }                                                                             *)
+Definition ex_run : program :=
+  {| p_recs := [];
+     p_funcs := [FDef 0 [] TInt
+       [IFunc (FDef 20 [(30, false, TInt)] TInt [IExpr (EBin Add (EVar 30) (EInt 1))] [] None);
+        IFunc (FDef 21 [(31, false, TInt)] TInt
+                 [IExpr (ECall (EVar 20) [ECall (EVar 20) [EVar 31]])] [] None);
+        IExpr (ECall (EVar 21) [EInt 3])] [] None];
+     p_main := 0 |}.
+Example ex_run_hyps : tc_program ex_run = OK /\ eval_ready ex_run = true /\ main_fits ex_run [] = true.
+Proof. vm_compute. auto. Qed.
+Example ex_run_runs : run_program 50 ex_run [] = OResult (Eval.CInt 5) [].
+Proof. vm_compute. reflexivity. Qed.
+
 (* Programs the model typechecker accepts and the evaluator gets stuck on: one per side condition
    of eval_ready. *)
 
@@ -1061,7 +1157,7 @@ Example stuck_eq_nil_accepted_and_stuck :
   eval_ready stuck_eq_nil = false /\ run_program 50 stuck_eq_nil [] = OStuck.
 Proof. vm_compute. auto. Qed.
 
-(* (S3)  two consecutive nested functions, the first calls the second
+(* (S3)  two consecutive nested functions, the first calls the second (forward reference)
      func main() -> int {
        func f(x : int) -> int { g(x) }
        func g(x : int) -> int { x + 1 }
